@@ -1,7 +1,7 @@
 SPECIFICATION Spec
 CONSTANTS
   Size = "small"
-  Keep = "not_p"
+  Keep = "is_not_true"
   Emit = TRUE
-INVARIANTS ImplSafe AsWritten EmitInv
+INVARIANTS ImplSafe PropExact EmitInv
 CHECK_DEADLOCK FALSE
